@@ -4,6 +4,7 @@ import RbV.Lemmas.EdTextbook
 import RbV.Lemmas.MyersStep
 import RbV.Lemmas.MyersBlock
 import RbV.Lemmas.MyersLongAll
+import RbV.Lemmas.MyersLongBand
 /-!
 # C09 — approximate matchers and distance functions equal the edit-distance definition
 
@@ -224,21 +225,28 @@ theorem myers_block_step {w : Nat} (bnd : Nat) (hn : bnd + 1 ≤ w) (D : Nat →
       RbV.Model.MyersLong.nextCB D eq.getLsbD b0 (bnd + 1) - D (bnd + 1) :=
   RbV.Model.MyersLong.advanceBlock_enc bnd hn D eq s b0 hin hh hb enc hd hnn
 
-/-- **[C] block-based Myers — partial.**  Full statement (not proved; it needs the band invariant: active blocks hold
-a pseudo-column that is ≥ the true one and equal to it wherever the true value is ≤ k, rows of inactive blocks are > k):
-
-    ∀ w ≥ 1, eqv, p ≠ [], t, k :  Model.MyersLong.findAllEnd w eqv p t k = hits (unitW eqv) p t k
-
-Proved fragment: the same equation for `k ≥ |p|` — then `States::new` activates every block, `States::step` never
-adds or drops one, and the chain of `advance_block` calls with the carry handed from block to block
-(`Model.MyersLong.advanceAll_enc`, built on `myers_block_step`) computes the next Sellers column on all rows, for every
-word width, every pattern length (any number of blocks, last block partial or full), every equivalence and text.
-The band logic (activation test `last_dist − carry ≤ k ∧ (match at the next row ∨ carry < 0)`, `add_state`,
-deactivation at `dist ≥ k + w`) is covered by running this mirror model in the driver next to the oracle. -/
-theorem myers_long_allblocks_partial (w : Nat) (eqv : Nat → Nat → Bool) (p t : List Nat) (k : Nat)
+/-- **[C] block-based Myers, all blocks active**: for `k ≥ |p|` `States::new` activates every block and
+`States::step` never adds or drops one; the chain of `advance_block` calls with the carry handed from block to block
+(`Model.MyersLong.advanceAll_enc`, built on `myers_block_step`) computes the next Sellers column on all rows.
+(Superseded by `myers_long_eq`; kept because it isolates the carry chain from the band logic.) -/
+theorem myers_long_allblocks (w : Nat) (eqv : Nat → Nat → Bool) (p t : List Nat) (k : Nat)
     (hw : 1 ≤ w) (hp : 1 ≤ p.length) (hk : p.length ≤ k) :
     RbV.Model.MyersLong.findAllEnd w eqv p t k = hits (unitW eqv) p t k :=
   RbV.Model.MyersLong.findAllEnd_eq_hits_allActive w eqv p t k hw hp hk
+
+/-- **[C] block-based Myers, end to end**: the mirror model of `long::Myers<T>::find_all_end` — pattern cut into
+blocks of `w` symbols (last block partial or full), `advance_block` with the carry between blocks, and the band logic
+of `States::{new, add_state, step, known_dist}` (only `max(1, ⌈min(k,m)/w⌉)` blocks at the start; the next block is
+switched on when `last_dist − carry ≤ k` and the next row matches or the carry is negative, initialised as the steepest
+continuation; trailing blocks are switched off while their last row is `≥ k + w`; a distance is known only when all
+blocks are computed) — returns exactly the expected pairs, for **every** word width, pattern length, equivalence
+(ambiguity map, wildcards), text and `k`.
+Invariant (`Model.MyersLong.Band`): the active blocks encode a pseudo-column `P` with `P ≥ C` (the true Sellers
+column) on their rows and `P r = C r` wherever `C r ≤ k`; every row below the active blocks has `C r > k`. -/
+theorem myers_long_eq (w : Nat) (eqv : Nat → Nat → Bool) (p t : List Nat) (k : Nat)
+    (hw : 1 ≤ w) (hp : 1 ≤ p.length) :
+    RbV.Model.MyersLong.findAllEnd w eqv p t k = hits (unitW eqv) p t k :=
+  RbV.Model.MyersLong.findAllEnd_eq_hits w eqv p t k hw hp
 
 -- non-vacuity: concrete instances
 example : RbV.Model.MyersLong.findAllEnd 2 eqSym [1, 2, 1, 1, 3] [1, 2, 1, 3, 1, 1, 3, 2] 5 =
